@@ -69,4 +69,26 @@ example :
     KM.Gen.C14.ResourceClassObjects.requires_re_issuance (fun (s : Bool) _ => s) .Current false true true 0 = false := by
   decide
 
+/-! ### `ObjectSetRevision::next`
+
+`number_plus_one`, `mft_crl_numbers_agree`, `numbers_strictly_increase` (Props/C14.lean) and the TA theorems of C15 run
+on `Revision.next` / `Revision.nextWith`: the number of the next manifest AND CRL (both are built from this one
+revision) is the old number plus one, or the operator's override; the validity window is taken from the arguments. -/
+
+/-- `ObjectSetRevision::next` as translated from the source = the model's `nextWith`, for every revision, window and
+override. -/
+theorem gen_next_eq_model (r : Revision) (thisUpdate nextUpdate : Nat) (override : Option Nat) :
+    KM.Gen.C14.ObjectSetRevision.next r.number r.thisUpdate r.nextUpdate thisUpdate nextUpdate override
+      = ((r.nextWith thisUpdate nextUpdate override).number, (r.nextWith thisUpdate nextUpdate override).thisUpdate,
+         (r.nextWith thisUpdate nextUpdate override).nextUpdate) := by
+  cases override <;> rfl
+
+/-- Without override (all the daemon itself ever passes): exactly one more. -/
+theorem gen_next_plus_one (n : Nat) (a b c d : Nat) :
+    (KM.Gen.C14.ObjectSetRevision.next n a b c d none).1 = n + 1 := rfl
+
+/-- … and `Revision.next` (CA key sets) is `nextWith` without override at the issuing instant. -/
+theorem next_is_nextWith (r : Revision) (t : Timing) (i : IssueIn) :
+    r.next t i = r.nextWith (fiveMinutesAgo i.now) (publishNext t i) none := rfl
+
 end KM.Props.C14Src
